@@ -61,6 +61,16 @@ class SBuf(V):
         return t
 
 
+class SBytesOf(V):
+    """the bytes librt.internal.extract_symbol cut out of a buffer: exactly the body of nested object
+    `obj` (its class tag already consumed).  ReadBuffer(those bytes) presents that body again."""
+
+    kind = "bytes-of-object"
+
+    def __init__(self, obj):
+        self.obj = obj
+
+
 class SMapped(V):
     """[value(e) for e in src]: a list known only through its source and its generic element"""
 
@@ -373,6 +383,25 @@ def prim_overrides():
     def new_wbuf(I, args, kw):
         return SBuf()
 
+    def extract_symbol(I, args, kw):
+        """trusted primitive: removes the rest of ONE serialized symbol (whose tag was just read) from
+        the buffer and returns it as bytes"""
+        b = wbuf(args)
+        t = b.peek()
+        if t is None or t[0] != "objbody":
+            raise PyExc(LayoutMismatch, None, "extract_symbol where no nested symbol body follows", "")
+        b.pos += 1
+        cache = I.ctx.ghost.setdefault("bytes_of", {})
+        if id(t[1]) not in cache:
+            cache[id(t[1])] = SBytesOf(t[1])
+        return cache[id(t[1])]
+
+    def new_rbuf(I, args, kw):
+        v = args[0]
+        if isinstance(v, SBytesOf):
+            return SBuf([("objbody", v.obj)], reading=True)
+        raise Unsupported("ReadBuffer over bytes that are not an extracted symbol")
+
     def write_flags(I, args, kw):
         """mypy.cache.write_flags / read_flags are a pair proved on their own (target codec.flags):
         inside class proofs the packed integer travels as one token holding the flag list"""
@@ -408,6 +437,9 @@ def prim_overrides():
         out[f"{mod}:read_bytes"] = read_bytes
         out[f"{mod}:read_float"] = read_float
         out[f"{mod}:WriteBuffer"] = new_wbuf
+        out[f"{mod}:extract_symbol"] = extract_symbol
+        out[f"{mod}:ReadBuffer"] = new_rbuf
+        out["builtins:ReadBuffer"] = new_rbuf
     return out
 
 
